@@ -30,6 +30,34 @@ def hook_term(r):
     return "(%d, %s, %s)" % (w, inp, out)
 
 
+def llk_corr(ctx, n, name="cases_c18_llk"):
+    """the look-ahead window of llk.go (model: coq/Grammar/LLk.v) vs the real grammar.LLk driven directly"""
+    lrows = c17.hparse(["-mode", "llk", "-n", str(n), "-seed", str(ctx.seed)])
+    lbad = []
+    for k in range(0, len(lrows), 150):
+        part = lrows[k:k + 150]
+        def nl(xs):
+            return "[" + ";".join(str(x) for x in xs) + "]"
+        def term(r):
+            toks = "[" + ";".join("(%d,%d)" % (a, b) for a, b in r["toks"]) + "]"
+            steps = "[" + ";".join("(%s,%s)" % ("true" if st["ok"] else "false", nl(st["win"])) for st in r["steps"]) + "]"
+            return "(%s, %d%%nat, %s, %s, %s)" % (toks, r["k"], nl(r["win0"]), nl(r["tys"]), steps)
+        v = c17.HEADER + "Definition cases : list llk_obs := [\n" + ";\n".join(term(r) for r in part) + "].\n"
+        v += "Definition M := Eval vm_compute in llk_mismatches tok_eof 0 cases.\nPrint M.\n"
+        out = vcheck.coq_eval(ctx.work, "%s_%d" % (name, k), v)
+        lbad += [k + i for i in vcheck.parse_nat_list(out, "M")]
+    for i in lbad[:5]:
+        ctx.violation({"kind": "llk-window-model-vs-real-LLk", "case": {"text": lrows[i]["text"], "k": lrows[i]["k"], "tys": lrows[i]["tys"][:200],
+                                                                      "steps": lrows[i]["steps"][:200]},
+                       "explain": "Current/Peek/Consume of grammar.LLk differ from the window model over the lexer's token list"})
+    for r in lrows:
+        if not r["peek_ok"]:
+            ctx.violation({"kind": "llk-peek-range", "case": {"text": r["text"], "k": r["k"]},
+                           "explain": "Peek(j) failed for 1 <= j <= k, or succeeded for j = 0 or j = k+1"})
+            break
+    return lrows
+
+
 def run(ctx):
     info = vcheck.coq_props("Grammar", "C18")
     ctx.add_obligations(info)
@@ -98,30 +126,7 @@ def run(ctx):
             ctx.known("C18-stale-lastnop: WHERE/VARS hook closures keep lastNopToken across statements on one grammar value "
                       "(%d of %d histories; e.g. %r then %r)" % (len(excused), len(srows), wit[0], wit[1]))
     # 4. the look-ahead window of llk.go (model: coq/Grammar/LLk.v) vs the real LLk driven directly
-    lrows = c17.hparse(["-mode", "llk", "-n", "3000" if thorough else "150", "-seed", str(ctx.seed)])
-    lbad = []
-    eofk = None
-    for k in range(0, len(lrows), 150):
-        part = lrows[k:k + 150]
-        def nl(xs):
-            return "[" + ";".join(str(x) for x in xs) + "]"
-        def term(r):
-            toks = "[" + ";".join("(%d,%d)" % (a, b) for a, b in r["toks"]) + "]"
-            steps = "[" + ";".join("(%s,%s)" % ("true" if st["ok"] else "false", nl(st["win"])) for st in r["steps"]) + "]"
-            return "(%s, %d%%nat, %s, %s, %s)" % (toks, r["k"], nl(r["win0"]), nl(r["tys"]), steps)
-        v = c17.HEADER + "Definition cases : list llk_obs := [\n" + ";\n".join(term(r) for r in part) + "].\n"
-        v += "Definition M := Eval vm_compute in llk_mismatches tok_eof 0 cases.\nPrint M.\n"
-        out = vcheck.coq_eval(ctx.work, "cases_c18_llk_%d" % k, v)
-        lbad += [k + i for i in vcheck.parse_nat_list(out, "M")]
-    for i in lbad[:5]:
-        ctx.violation({"kind": "llk-window-model-vs-real-LLk", "case": {"text": lrows[i]["text"], "k": lrows[i]["k"], "tys": lrows[i]["tys"][:200],
-                                                                      "steps": lrows[i]["steps"][:200]},
-                       "explain": "Current/Peek/Consume of grammar.LLk differ from the window model over the lexer's token list"})
-    for r in lrows:
-        if not r["peek_ok"]:
-            ctx.violation({"kind": "llk-peek-range", "case": {"text": r["text"], "k": r["k"]},
-                           "explain": "Peek(j) failed for 1 <= j <= k, or succeeded for j = 0 or j = k+1"})
-            break
+    lrows = llk_corr(ctx, 3000 if thorough else 150)
     allrows = len(rows) + len(hrows) + len(srows) + len(lrows)
     ctx.cov["evaluations"] = allrows
     seen = set()
